@@ -89,11 +89,18 @@ def write_dataset(ds, base_dir, order=None, strategy="in memory", key="k"):
         # be kept is the content at the time of the call, whatever bytes-like type carries it
         for n, cell in enumerate(order if order is not None else ds["order"]):
             pay = ds["payload"][cell]
-            if n % 3 == 0:
+            if n % 4 == 0 or (n % 4 == 3 and (len(pay) % 2 or not pay)):
                 acc.store_chunk(pay, key, coords_of(ds, cell))
+            elif n % 4 == 3:
+                # the buffer of an array of wider items (what `ndarray.data` of an encoded uint16 chunk is): its len()
+                # counts items, its content is the same bytes
+                import numpy as np
+                arr = np.frombuffer(pay, dtype="<u2").copy()
+                acc.store_chunk(arr.data, key, coords_of(ds, cell))
+                arr ^= 0xFFFF
             else:
                 scratch = bytearray(pay)
-                acc.store_chunk(scratch if n % 3 == 1 else memoryview(scratch), key, coords_of(ds, cell))
+                acc.store_chunk(scratch if n % 4 == 1 else memoryview(scratch), key, coords_of(ds, cell))
                 for i in range(len(scratch)):      # in place, no resize: the caller fills its buffer with the next chunk
                     scratch[i] ^= 0xFF
         acc.close()
